@@ -1599,6 +1599,7 @@ impl Plan {
             ("simple", 8u64.pow(self.sim_k as u32)),
             ("intern", (INTERN_OPS as u64).pow(self.int_k as u32)),
             ("internpair", pair_pool().len() as u64),
+            ("convert", (conv_sources().len() * CONVERSIONS.len()) as u64),
         ]
     }
     fn locate(&self, mut idx: u64) -> (&'static str, u64) {
@@ -1708,6 +1709,112 @@ fn run_pair_row(ai: usize, cx: &mut Ctx) {
         match pair_case(ai, bi) {
             None => cx.nontrivial(("internpair", ai, bi)),
             Some((kind, witness, det)) => cx.violation(&kind, &witness, json!({"part": "internpair", "impl": "simple", "a": ai, "b": bi, "shown": det})),
+        }
+    }
+}
+
+
+// ---------------------------------------------------------------------------------------------
+// conversions: add_char_list_from / add_byte_list_from / add_symbol_from / add_number_from store a NEW value derived
+// from an existing one. For every source value of the pool below and each conversion, on both implementations: when
+// the call returns Ok(address), that address holds a value of the target type (unit allowed for a failed number
+// conversion), the source still reads back unchanged, and both survive further adds. Err results are not judged
+// (a conversion may be unavailable); the content of the converted value is judged by C14 / C08 where they apply.
+
+fn conv_sources() -> Vec<V> {
+    vec![
+        V::Unit,
+        V::True,
+        V::Int(65),
+        V::Float(1.5),
+        V::Char('a'),
+        V::Byte(66),
+        V::sym("ab"),
+        V::str("12"),
+        V::str("héllo"),
+        V::Bytes(vec![1, 2]),
+        V::List(vec![V::Int(1), V::str("x")]),
+        V::Pair(Box::new(V::sym("k")), Box::new(V::Int(2))),
+        V::Range(Box::new(V::Int(1)), Box::new(V::Int(3))),
+        V::Concat(Box::new(V::Int(1)), Box::new(V::Int(2))),
+        V::SymList(vec![val::SymPart::Sym(symbol_value("a")), val::SymPart::Sym(symbol_value("b"))]),
+    ]
+}
+
+const CONVERSIONS: [&str; 4] = ["add_char_list_from", "add_byte_list_from", "add_symbol_from", "add_number_from"];
+
+fn conv_case<D: Subject + val::Adder>(si: usize, ci: usize, preload: usize) -> Option<(String, String)> {
+    let srcs = conv_sources();
+    let src = &srcs[si];
+    let r = guard(|| -> Result<Option<(String, String)>, String> {
+        let mut d = D::fresh(Host::none());
+        for k in 0..preload {
+            put(&mut d, &V::Int(1000 + k as i32)).map_err(|e| short_err(&e))?;
+        }
+        let a = match put(&mut d, src) {
+            Ok(a) => a,
+            Err(_) => return Ok(None),
+        };
+        let before = get(&d, a);
+        let res = match ci {
+            0 => d.add_char_list_from(a),
+            1 => d.add_byte_list_from(a),
+            2 => d.add_symbol_from(a),
+            _ => d.add_number_from(a),
+        };
+        let c = match res {
+            Ok(c) => c,
+            Err(_) => return Ok(None),
+        };
+        let want: &[GarnishDataType] = match ci {
+            0 => &[GarnishDataType::CharList],
+            1 => &[GarnishDataType::ByteList],
+            2 => &[GarnishDataType::Symbol],
+            _ => &[GarnishDataType::Number, GarnishDataType::Unit],
+        };
+        let got = d.get_data_type(c).map_err(|e| short_err(&e))?;
+        // converting a value that already has the target type may hand the same value back
+        if !want.contains(&got) {
+            return Ok(Some(("conversion-returns-address-of-another-type".into(), format!("{} of {} returned address {} holding a {:?} (source at {})", CONVERSIONS[ci], src.show(), c, got, a))));
+        }
+        let converted = get(&d, c);
+        for k in 0..12 {
+            put(&mut d, &V::Int(2000 + k)).map_err(|e| short_err(&e))?;
+            put(&mut d, &V::str("pad")).map_err(|e| short_err(&e))?;
+        }
+        if get(&d, a) != before {
+            return Ok(Some(("conversion-changed-its-source".into(), format!("{} of {}: source reads {}", CONVERSIONS[ci], src.show(), get(&d, a).show()))));
+        }
+        if get(&d, c) != converted {
+            return Ok(Some(("converted-value-changed-after-later-adds".into(), format!("{} of {}: {} became {}", CONVERSIONS[ci], src.show(), converted.show(), get(&d, c).show()))));
+        }
+        Ok(None)
+    });
+    match r {
+        Ok(Ok(x)) => x,
+        Ok(Err(e)) => Some(("add-err".into(), e)),
+        Err(p) => Some((format!("panic[{}]", short_panic(&p)), format!("{} of {}", CONVERSIONS[ci], src.show()))),
+    }
+}
+
+fn run_conv_element(i: usize, cx: &mut Ctx) {
+    let n = conv_sources().len();
+    let (si, ci) = (i % n, i / n);
+    for preload in [0usize, 3, 11] {
+        for which in 0..2 {
+            cx.eval();
+            cx.count("states", 26);
+            cx.count("transitions", 26);
+            cx.count("traces_validated", 1);
+            let r = if which == 0 { conv_case::<SData>(si, ci, preload) } else { conv_case::<crate::subj::BData>(si, ci, preload) };
+            match r {
+                None => cx.nontrivial(("convert", si, ci, preload, which)),
+                Some((kind, det)) => cx.violation(
+                    &kind,
+                    &format!("{}: {} of a {:?}", ["simple", "basic"][which], CONVERSIONS[ci], conv_sources()[si].type_of()),
+                    json!({"part": "convert", "impl": (["simple", "basic"][which]), "source": si, "conversion": ci, "preload": preload, "shown": det}),
+                ),
+            }
         }
     }
 }
@@ -1833,6 +1940,7 @@ impl Property for C15 {
                 format!("periodic basic [{}] word {} repeated to length {}", cfg.show(), show_hist(&HIST, wd), p.per_len)
             }
             "simple" => format!("simple all histories to depth {} extending {}", p.sim_depth, show_hist(&SIMPLE, &decode(i, 8, p.sim_k))),
+            "convert" => format!("convert: {} of {}", CONVERSIONS[i as usize / conv_sources().len()], conv_sources()[i as usize % conv_sources().len()].show()),
             "internpair" => format!("internpair simple: {} then every constant of the pool", pair_pool()[i as usize].show()),
             "intern" => format!("intern simple all add sequences to length {} extending [{}]", p.int_depth, show_intern_hist(&decode(i, INTERN_OPS as u64, p.int_k))),
             _ => format!("none#{}", idx),
@@ -1862,6 +1970,7 @@ impl Property for C15 {
             }
             "simple" => run_simple_element(&decode(i, 8, p.sim_k), p.sim_depth, cx),
             "internpair" => run_pair_row(i as usize, cx),
+            "convert" => run_conv_element(i as usize, cx),
             "intern" => {
                 let prefix = decode(i, INTERN_OPS as u64, p.int_k);
                 run_intern(&prefix, p.int_depth, |j| suffix_zero(&prefix, j), cx);
@@ -1896,6 +2005,16 @@ impl Property for C15 {
             None => return,
         };
         let part = d["part"].as_str().unwrap_or("");
+        if part == "convert" {
+            let (si, ci, pre) = (d["source"].as_u64().unwrap_or(0) as usize, d["conversion"].as_u64().unwrap_or(0) as usize, d["preload"].as_u64().unwrap_or(0) as usize);
+            if si < conv_sources().len() && ci < CONVERSIONS.len() {
+                let r = if d["impl"].as_str() == Some("simple") { conv_case::<SData>(si, ci, pre) } else { conv_case::<crate::subj::BData>(si, ci, pre) };
+                if let Some((kind, det)) = r {
+                    cx.violation(&kind, &format!("{}: {} of a {:?}", d["impl"].as_str().unwrap_or(""), CONVERSIONS[ci], conv_sources()[si].type_of()), json!({"part": "convert", "shown": det}));
+                }
+            }
+            return;
+        }
         if part == "internpair" {
             let (ai, bi) = (d["a"].as_u64().unwrap_or(0) as usize, d["b"].as_u64().unwrap_or(0) as usize);
             if ai < pair_pool().len() && bi < pair_pool().len() {
@@ -1948,7 +2067,7 @@ impl Property for C15 {
                  lattice: {} configurations (the same + library default), every vector of per-block element counts with sum <= {} (6 operations, one per heap block; the data operation cycles number/register/value/frame/char-list), every outgoing transition of the canonical representative executed and read back, all 15 operation pairs compared in both orders. \
                  periodic: {} configurations (library default 10/+10, 1/x2, 0/+1), every word of length <= {} over the 9 operations repeated to length {}, read-back after every step. \
                  simple: SimpleGarnishData, all histories of length <= {} over its 8 operations. \
-                 intern: SimpleGarnishData, all sequences of length <= {} over {} near-equal constants + pair/list/concatenation; internpair: every ordered pair of a pool of near-equal scalar constants (same integer part, same fraction, opposite sign, neighbouring code points, equal value in another type) added a, b, a, b. \
+                 intern: SimpleGarnishData, all sequences of length <= {} over {} near-equal constants + pair/list/concatenation; convert: the four add_*_from conversions of 15 source values on both implementations (returned address holds the target type, source and result survive later adds); internpair: every ordered pair of a pool of near-equal scalar constants (same integer part, same fraction, opposite sign, neighbouring code points, equal value in another type) added a, b, a, b. \
                  'states' = distinct histories (hist, periodic, simple, intern) or distinct count vectors (lattice); a transition is counted non-trivial when it changes the total allocated size of a non-empty store (Basic), adds to a non-empty store (Simple) or re-adds an already stored constant (intern).",
                 p.hist_cfgs.len(),
                 if tier == Tier::Thorough { " and three mixed per-block policies" } else { "" },
